@@ -180,6 +180,34 @@ static void fatal_handler(int sig)
     signal(sig, SIG_DFL); raise(sig);
 }
 
+/* an MPI error inside the runtime (MPI_ERRORS_ARE_FATAL -> MPI_Abort -> exit) while a valid program runs is a violation of that case */
+static void exit_hook(void)
+{
+    char cs[512];
+    if (!cur_case) return;
+    case_str(cs, sizeof(cs), cur_case);
+    sx_violation(cur_tag, cs, "the process was terminated from inside the runtime while running a valid program of the family (MPI error abort: e.g. message truncation because sender and receiver datatypes disagree)");
+    sx_report(cur_tag, 0, 0, 0, 0, 0, 0, 1, 0.0, "\"aborted\":true", NULL, 0);
+    sx_finish();
+    cur_case = NULL;
+    fflush(NULL);
+}
+
+static void mpi_error_hook(MPI_Comm *comm, int *code, ...)
+{
+    char es[MPI_MAX_ERROR_STRING] = "?", cs[512], msg[700]; int l = 0;
+    (void)comm; MPI_Error_string(*code, es, &l);
+    if (cur_case) {
+        case_str(cs, sizeof(cs), cur_case);
+        snprintf(msg, sizeof(msg), "rank %d: MPI error inside the runtime while running a valid program of the family: %s (sender and receiver datatypes disagree?)", myrank, es);
+        sx_violation(cur_tag, cs, msg);
+        sx_report(cur_tag, 0, 0, 0, 0, 0, 0, 1, 0.0, "\"aborted\":true", NULL, 0);
+        sx_finish(); cur_case = NULL; fflush(NULL);
+        _exit(1);
+    }
+    fprintf(stderr, "C18: MPI error outside a case: %s\n", es); _exit(2);
+}
+
 /* ---------------- run one case ---------------- */
 static int run_case(const case_t *c, stat_t *st, char *msg, size_t mcap, int verbose)
 {
@@ -425,6 +453,8 @@ int main(int argc, char **argv)
     if (world > 1) setenv("PARSEC_MCA_runtime_comm_thread_yield", "2", 0);
     if (!short_on) setenv("PARSEC_MCA_runtime_comm_short_limit", "0", 1);
     signal(SIGSEGV, fatal_handler); signal(SIGABRT, fatal_handler); signal(SIGBUS, fatal_handler); signal(SIGFPE, fatal_handler); signal(SIGALRM, fatal_handler);
+    atexit(exit_hook);
+    { MPI_Errhandler eh; MPI_Comm_create_errhandler(mpi_error_hook, &eh); MPI_Comm_set_errhandler(MPI_COMM_WORLD, eh); MPI_Comm_set_errhandler(MPI_COMM_SELF, eh); }   /* inherited by the communicators parsec duplicates */
     int pargc = 1; char *pargv_s[2] = { argv[0], NULL }; char **pargv = pargv_s;
     parsec = parsec_init(1, &pargc, &pargv);
     if (!parsec) { fprintf(stderr, "C18: parsec_init failed\n"); return 2; }
